@@ -121,6 +121,13 @@ theorem rU16_be16 (v : Nat) (rest : Bytes) (cnt : Nat) (hv : v < 65536) :
   rw [be16_length] at this
   simp [Rd.rU16, this, beN_be16 v hv]
 
+/-- octets of a set (IPFIX) / flowset (NetFlow v9) with id `sid` and body `body`:
+id, total length (header included), body -/
+def setBytes (sid : Nat) (body : Bytes) : Bytes := be16 sid ++ be16 (4 + body.length) ++ body
+
+theorem setBytes_length (sid : Nat) (body : Bytes) : (setBytes sid body).length = 4 + body.length := by
+  simp [setBytes, be16_length]; omega
+
 /-! ## Moving the count -/
 
 /-- the same remaining octets at a count moved by `k` -/
